@@ -12,985 +12,1096 @@ Definition show_fres (r : fres) : string :=
   end.
 Definition check (rs : list rune) : string := digest (show_fres (format_res rs)).
 Definition full (rs : list rune) : string := show_fres (format_res rs).
-Eval vm_compute in ("<<<M106>>>" ++ check (runes_of_ascii "packet //	t
-packetx { } root packet repeatCount
-// trailing space 
-// 50% %s
+Eval vm_compute in ("<<<M207>>>" ++ check (runes_of_ascii "root packet A {
+    } packet int //
 {
-    int16
-    rootA @lengthOf(// " ++ [27880; 37322]%N ++ runes_of_ascii "
-len) ``
-// " ++ [128512]%N ++ runes_of_ascii " emoji
-// trailing space 
-, i32 A
-@calculatedFrom( ""a\\"" ), i16 asx @calculatedFrom( ""x y""
-) ,repeat char[]
-    x,}
-root
-    packet
-lengthOf//x
-{ @leftPad ( '0')@calculatedFrom(
-""\" ++ [233]%N ++ runes_of_ascii """ ) @lengthOf( // @lengthOf(
-Z9_
-    ) repeat char[]  As
-, @rightPad ( ' ' // @lengthOf(
-)
-    repeat	zchar
-, match a1
-as pack
-{ [  3  ]
-    : lengthOf ,[ 007
-, ""x y"" ] :
-A, } ,
-    repeat chars { char[ 4294967296
-] //
-body , body @lengthOf( pack), string Z9_
-    , } , @leftPad( ' ' )
-zchar[ // packet A { u8 x, }
-255]Header , @tag(0
-//	t
-// 50% %s
-)repeat char[ 00 ]
-    // " ++ [27880; 37322]%N ++ runes_of_ascii "
-    roots	,match crc as body { ""`tick`"" ://	t
-a1 } , @tag( 1 ) char[] rootA @calculatedFrom( """ ++ [233]%N ++ runes_of_ascii "t" ++ [233]%N ++ runes_of_ascii """
-// `tick` ""quote"" 'q'
-//
-) // a // b
-,	} packet pack  {
-match Packet
-as /// triple
-repeatCount
-{
-    //x
-    ""a	b"" : pack, } , packetx packetx
-,//	t
-match
-    // c
-    o  as Packet { // a // b
-0123456789 :
-lengthOf,// `tick` ""quote"" 'q'
-""CRC32""
-    :
-i64_ , 1
-    :asx ,	""\" ++ [233]%N ++ runes_of_ascii """
-:
-    // packet A { u8 x, }
-    o
-    ,
-    ""a	b"" :u128, ""// no comment"" :Packet
-,
-    // `tick` ""quote"" 'q'
-    } ,
-    @leftPad ( '0')@calculatedFrom(
-    """ ++ [128512]%N ++ runes_of_ascii """ ) A @calculatedFrom( ""{,}""  ) `u8 x,`,	@tag( 255 ) float32 MetaDataX
-, char[]u128@lengthOf( zchar ),
-    match
-x	as _x
-{00 :
-A ,} ,
-    //	t
-    }")).
-Eval vm_compute in ("<<<M311>>>" ++ check (runes_of_ascii "packet falsey  {
-    /// triple
-    string i8i8 @calculatedFrom(
-""a\\""
-    )	, // " ++ [128512]%N ++ runes_of_ascii " emoji
+    @calculatedFrom( ""a\""b""	) u32 x_y_z @lengthOf( u
+    ) , repeat
+    _x charz`tab	here`
+, stringy stringy ,
 @calculatedFrom(
-    """ ++ [233]%N ++ runes_of_ascii "t" ++ [233]%N ++ runes_of_ascii """ ) repeat a1
+""" ++ [28040; 24687]%N ++ runes_of_ascii """ ) repeat
+// `tick` ""quote"" 'q'
+// a // b
+falsey {
+zchar[ 255
+    ]
+As @lengthOf(BodyLength ) , match Z9_
+    as As	{ [
+0123456789, 007, ""a\\"", ""\" ++ [233]%N ++ runes_of_ascii """// 50% %s
+, ""x y"" ,3 ] : i8i8
+    ,} ,	} , f32a
+    {match leftPad as crc{	[ ""\" ++ [233]%N ++ runes_of_ascii """ , // " ++ [128512]%N ++ runes_of_ascii " emoji
+""packet""
 ,
-    } options { falsey =0
-// packet A { u8 x, }
-// c
-Foo
-    = //x
-""\" ++ [233]%N ++ runes_of_ascii """ ; } root packet
-packetx { metadata @lengthOf(
-asx ),
+65535 ,""`tick`"",
+""`tick`"" ,
+""a\\"" , """" ,
+    //x
+    ""// no comment""
 // @lengthOf(
 //	t
-char[] BodyLength @calculatedFrom(
-    """ ++ [233]%N ++ runes_of_ascii "t" ++ [233]%N ++ runes_of_ascii """
-)`" ++ [233]%N ++ runes_of_ascii "`	, metadata{
-    repeat rootA i64_
-    `a\`
-    // " ++ [128512]%N ++ runes_of_ascii " emoji
-    , u8x
-// a // b
-// `tick` ""quote"" 'q'
-chars
-    ,
-repeat int64 string_ // " ++ [27880; 37322]%N ++ runes_of_ascii "
-`{ , }` // trailing space 
-,} , @tag( 4294967296
-    // " ++ [27880; 37322]%N ++ runes_of_ascii "
-    )
-u64
-tag  @lengthOf( pack ) , // `tick` ""quote"" 'q'
-u128 Z9_ ``
-    , repeat
-// @lengthOf(
-// `tick` ""quote"" 'q'
-i16 lengthOf , @calculatedFrom( ""`tick`"" )
-// `tick` ""quote"" 'q'
-// @lengthOf(
-repeat// a // b
-char[ //
-00 ]
-    //	t
-    Packet `it's` , uint16 Pad, @calculatedFrom( ""a\\"" )match int
-//
-// " ++ [27880; 37322]%N ++ runes_of_ascii "
-as
-    pack
-{ 00 : u , [ ""x y"" ]:asx  , """ ++ [28040; 24687]%N ++ runes_of_ascii """
+]// 50% %s
+: calculatedFrom""packet""
     :
-string_
-    // trailing space 
-    1 : Pad , },	@calculatedFrom( // " ++ [27880; 37322]%N ++ runes_of_ascii "
-""" ++ [233]%N ++ runes_of_ascii "t" ++ [233]%N ++ runes_of_ascii """ ) roots @calculatedFrom( ""// no comment"" // @lengthOf(
-) ,	}
-    packet zchar  { // 50% %s
-@leftPad	( '0' ) T `line1
-line2`
+// c
+//
+Packet // c
+, [ //x
+4294967296 ,
+    // c
+    4294967296
+    ,//x
+""{,}""
+// " ++ [128512]%N ++ runes_of_ascii " emoji
+// `tick` ""quote"" 'q'
+]  :T [0 ,0  , """ ++ [233]%N ++ runes_of_ascii "t" ++ [233]%N ++ runes_of_ascii """ , 42 ,
+""a	b"", 7
+]: tag 3: As  , }
+, char[]
+matchKey
+    `crlf
+line`
+, // packet A { u8 x, }
+}
+,repeat zchar[
+    //	t
+    4294967296 ] As , rootA	T
+,
+// @lengthOf(
+// " ++ [128512]%N ++ runes_of_ascii " emoji
+@tag( 65535
+)
+    @calculatedFrom(
+""{,}"" // a // b
+)
+    /// triple
+    repeat// @lengthOf(
+i16 Z9_ `{ , }` , @calculatedFrom( ""{,}"") len {
+match// trailing space 
+u128 //
+as
+zchar {[	00 , 4294967296
+    ] // 50% %s
+:  charz
+,""a\\""
+    :	i8i8  ,""" ++ [233]%N ++ runes_of_ascii "t" ++ [233]%N ++ runes_of_ascii """ :
+    x_y_z,65535 :uint8x
+,
+}, repeat leftPad { f32 u128	@lengthOf(
+As ) ,
+    body `" ++ [28040; 24687; 31867; 22411]%N ++ runes_of_ascii "` , rootA// @lengthOf(
+Pad
+,} ,
+char[ 00 ] msg_type `say ""hi""`// `tick` ""quote"" 'q'
+,
+    /// triple
+    zchar[ // @lengthOf(
+0123456789	] falsey,
+    // " ++ [27880; 37322]%N ++ runes_of_ascii "
+    } ,
+    repeat int
+`a\`
+, } root
+packet f32a { int8
+    Header ``,
+    }
+
+")).
+Eval vm_compute in ("<<<M1579>>>" ++ check (runes_of_ascii "packet x {
+}
+
+options {
+    Packet = string
+    Packet = ' '
+    zchar = false;
+    matchKey = false
+}
+
+packet f32a {
+    int64 options1 @calculatedFrom(""packet"") `// not a comment`,
+    Z9_ {
+        charz {
+            match BodyLength as trueish {
+                ""\" ++ [233]%N ++ runes_of_ascii """ : charz,
+                65535 : roots,
+                [4294967296, ""a\""b"", ""abc""] : f32a,
+                ""\" ++ [233]%N ++ runes_of_ascii """ : int,
+                // packet A { u8 x, }
+                ""x y"" : u8x,
+            },
+            repeat int8 u,
+            repeat _x {
+                msg_type `100% of %d`,
+                metadata `crlf
+                                line`,
+                f32 roots,
+                char[] f32a @lengthOf(Pad),// c
+            },
+        },
+    },
+    match T as calculatedFrom {
+        [0, """ ++ [128512]%N ++ runes_of_ascii """] : Pad,
+        // packet A { u8 x, }
+        [
+            """", ""x y"", """ ++ [233]%N ++ runes_of_ascii "t" ++ [233]%N ++ runes_of_ascii """, ""a\""b"", 4294967296,
+            """ ++ [28040; 24687]%N ++ runes_of_ascii """
+        ] : o,
+        [42] : float,
+    },
+    match zchar as _x {
+        ""`tick`"" : packetx,
+    },
+    // 50% %s
+    repeat As {
+        int @lengthOf(msg_type),
+        i64 roots `line1
+                line2`,// c
+        repeat u16 Packet `" ++ [233]%N ++ runes_of_ascii "`,
+        f64 charz,
+    },
+    int32 i8i8 `say ""hi""`,
+}")).
+Eval vm_compute in ("<<<M1320>>>" ++ check (runes_of_ascii "// top
+packet // c0a
+  // c0b
+A { // c2a
+  // c2b
+u8 // c3
+a // c4a
+  // c4b
+, // c5
+} // c6a
+  // c6b
+packet // c7
+B
+    // c8
+{
+    // c9
+u16 b // c11
+, } // c13a
+  // c13b
+packet // c14a
+  // c14b
+C // c15
+{ // c16a
+  // c16b
+u32 c // c18
+, }
+    // c20
+root // c21a
+  // c21b
+packet M
+    // c23
+{ // c24
+u16 // c25
+Kc , // c27a
+  // c27b
+u16 // c28
+Kb // c29
+, // c30a
+  // c30b
+u16 Ka // c32a
+  // c32b
+,
+    // c33
+match Kc
+    // c35
+as
+    // c36
+X // c37
+{ 9
+    // c39
+: A // c41
+, 10 // c43
+: // c44
+B // c45
+,
+    // c46
+} , // c48a
+  // c48b
+match // c49
+Kb // c50a
+  // c50b
+as // c51
+Y // c52a
+  // c52b
+{ 2 // c54
+: C , // c57a
+  // c57b
+1 // c58a
+  // c58b
+: // c59a
+  // c59b
+A ,
+    // c61
+}
+    // c62
+, // c63a
+  // c63b
+match
+    // c64
+Ka // c65
+as Z // c67a
+  // c67b
+{
+    // c68
+1 // c69
+: // c70
+B // c71a
+  // c71b
+, // c72a
+  // c72b
+} // c73
+, // c74a
+  // c74b
+A // c75a
+  // c75b
+, // c76
+B // c77
+, // c78a
+  // c78b
+C , // c80a
+  // c80b
+} // c81
+")).
+Eval vm_compute in ("<<<M1731>>>" ++ check (runes_of_ascii "MetaData len {
+    float roots `u8 x,`,
+    u32 int `" ++ [233]%N ++ runes_of_ascii "`,
+}
+
+root packet x {
+    @tag(1)
+    repeat charz,
+    Pad @calculatedFrom(""" ++ [233]%N ++ runes_of_ascii "t" ++ [233]%N ++ runes_of_ascii """),
+    match int as u8x {
+        //x
+        0 : leftPad,
+        [1, 0123456789, 10] : uint8x,
+    },
+    @leftPad()
+    /// triple
+    repeat u128 {
+        f64 _x `two words`,
+        T @calculatedFrom(""\n"") `u8 x,`,
+        match A as crc {
+            3 : leftPad,
+            """ ++ [128512]%N ++ runes_of_ascii """ : falsey,
+            [
+                """ ++ [233]%N ++ runes_of_ascii "t" ++ [233]%N ++ runes_of_ascii """, 4294967296, """ ++ [28040; 24687]%N ++ runes_of_ascii """, ""a	b"", 00,
+                """ ++ [233]%N ++ runes_of_ascii "t" ++ [233]%N ++ runes_of_ascii """
+            ] : rootA,
+            ""1"" : MetaDataX,
+        },
+        f32 o @calculatedFrom(""// no comment"") `// not a comment`,// a // b
+    },
+    chars @calculatedFrom(""{,}""),
+    @rightPad(' ')
+    @tag(0)
+    repeat BodyLength ``,
+    body,
+}
+
+MetaData T {
+    len i8i8,
+}
+
+options {
+    f32a = true
+}
+
+packet falsey {
+}")).
+Eval vm_compute in ("<<<M1920>>>" ++ check (runes_of_ascii "MetaData BodyLength {
+}
+
+packet x_y_z {
+    @lengthOf(roots)
+    A {
+        // " ++ [128512]%N ++ runes_of_ascii " emoji
+        repeat zchar[0123456789] Z9_ `a\`,
+    },
+}
+
+options {
+    Pad = ""x y"";// trailing space 
+    trueish = true
+    body = 3;
+    matchKey = true;
+    i64_ = char[];
+}
+
+packet Packet {
+    char[] float @calculatedFrom(""`tick`""),
+    char[] charz @calculatedFrom(""abc""),
+    match As as asx {
+        [
+            """ ++ [28040; 24687]%N ++ runes_of_ascii """, ""`tick`"", ""{,}"", ""{,}"", ""a	b"",
+            1, ""\" ++ [233]%N ++ runes_of_ascii """
+        ] : rootA,
+        255 : asx,
+        42 : a1,
+        42 : x_y_z,
+        """" : msg_type,
+        7 : f32a,
+    },
+    @leftPad('0')
+    repeatCount crc `// not a comment`,
+    @lengthOf(MetaDataX)
+    float64 falsey @calculatedFrom(""\" ++ [233]%N ++ runes_of_ascii """) `" ++ [233]%N ++ runes_of_ascii "`,
+}")).
+Eval vm_compute in ("<<<M161>>>" ++ check (runes_of_ascii "root/// triple
+packet options1
+    {// " ++ [27880; 37322]%N ++ runes_of_ascii "
+@tag(
+// c
+// 50% %s
+0
+    // `tick` ""quote"" 'q'
+    )
+    len leftPad	, @calculatedFrom(
+    """ ++ [233]%N ++ runes_of_ascii "t" ++ [233]%N ++ runes_of_ascii """ )
+    stringy a1 `` ,	@rightPad ( )a1	`" ++ [28040; 24687; 31867; 22411]%N ++ runes_of_ascii "`
+// " ++ [27880; 37322]%N ++ runes_of_ascii "
+// a // b
+, char Header @lengthOf( x
+) `a\` ,uint8x
+Z9_ `it's` ,
+match
+roots as
+    o { [ ""{,}"" , ""CRC32"" // `tick` ""quote"" 'q'
+] : o ,
+    ""CRC32"": Pad ,
+} , // 50% %s
+@tag(
+    00) zchar[ 4294967296
+]	x , @lengthOf( repeatCount
+) uint16 // `tick` ""quote"" 'q'
+T ,  @lengthOf( u128 ) repeat
+i64_ { repeat	u8 MetaDataX // `tick` ""quote"" 'q'
+`" ++ [233]%N ++ runes_of_ascii "` ,
+    repeat
+    // a // b
+    u8x
+    // c
+    `two words`
     ,
+}  ,
+} // packet A { u8 x, }")).
+Eval vm_compute in ("<<<M1789>>>" ++ check (runes_of_ascii "  packet
+x_y_z
+    {repeat
+asx{
+
+    falsey@lengthOf(	u ) `100% of %d`
+, repeat
+
+matchKey { 
+x_y_z
+	@calculatedFrom( ""a\\"" 
+        // trailing space 
+  	// trailing space 
+)
+
+, i64 
+// 50% %s
+  //
+		calculatedFrom  @calculatedFrom(
+""// no comment"" )`{ , }`  ,
+} 	 // 50% %s
+	,
+// c
+  //	t
+
+  char[  // 50% %s
+    007]Foo	@calculatedFrom(
+
+    ""abc""
+
+    )  ,
+
+}
+,repeat
+uint32  Pad
+    ,
+
+repeat Logon
+
+{
+Logon
+
+{
+	char[] packetx  @calculatedFrom( 
+
+// " ++ [128512]%N ++ runes_of_ascii " emoji
+	  // `tick` ""quote"" 'q'
+
+  ""it's"" )	`
+`	,	} ,
+    i8
+
+len
+    ,	asx	, 
+} ,
+
     }
 ")).
-Eval vm_compute in ("<<<M1612>>>" ++ check (runes_of_ascii "options {
+Eval vm_compute in ("<<<M1568>>>" ++ check (runes_of_ascii "MetaData i8i8 {
+    char[00] msg_type `say ""hi""`,
+}// " ++ [128512]%N ++ runes_of_ascii " emoji
+
+MetaData charz {
+    zchar[0] options1,
+}
+
+packet MetaDataX {
+    // packet A { u8 x, }
+    Header u8x `// not a comment`,
+    x rootA,
+    @lengthOf(falsey)
+    @lengthOf(i8i8)
+    match MetaDataX as stringy {
+        [""" ++ [128512]%N ++ runes_of_ascii """, ""a\""b""] : i64_,
+    },
+}
+
+MetaData msg_type {
+    string zchar `doc`,
+    //
+}
+
+MetaData leftPad {
+    uint8 x `crlf
+        line`,
+    i32 msg_type `// not a comment`,
+    char[255] leftPad,// a // b
+    char[] u,//	t
+}")).
+Eval vm_compute in ("<<<M1730>>>" ++ check (runes_of_ascii "options {
     LittleEndian = true;
-    StringPrefixLenType = u8;
-    ArrayPrefixLenType = u8;
+    ArrayPrefixLenType = u32;
+    FixedStringPadChar = ' ';
+}
+
+packet Order {
+    char[5] seqNo,
+    uint8 Px,
+}
+
+packet Logon {
+    @rightPad('\x00')
+    char[8] Flags,
+    zchar[3] count,
+    repeat Order,
+}
+
+root packet Party {
+    repeat Logon,
+    repeat char[1] x,
+    u32 price,
+    u32 Side2 @lengthOf(Body),
+    match price as Body {
+        49 : Order,
+        196 : Logon,
+    },
+    u32 f1 @calculatedFrom(""CR\
+    C32""),
+}")).
+Eval vm_compute in ("<<<M1623>>>" ++ check (runes_of_ascii "options {
+    ArrayPrefixLenType = u64;
     FixedStringPadFromLeft = true;
     FixedStringPadChar = '0';
 }
 
-packet Logon {
-    repeat i8 Ref,
-    @rightPad('0')
-    char[8] msgKind,
-    repeat InOrderid72 {
-        u8 Side2,
-        uint32 Qty,
-        repeat InPrice27 {
-            repeat char[4] Acct,
-            u64 sym,
-        },
-        zchar[4] clOrdID,
-        int16 lastPx,
-        InAcct22 {
-            repeat char[3] OrderId,
-        },
-    },
-    int64 Px,
-}
-
-packet Fill {
-    uint16 Qty,
-    repeat char[1] Flags,
-    i8 Ref,
-}
-
-packet Logout {
-    @leftPad('0')
-    char[3] x,
-    int8 f1,
-    Logon,
-    uint16 venue,
-    zchar[2] Px,
-}
-
-packet Reject {
+packet Order {
 }
 
 root packet Leg {
-    Fill,
-    u16 msgKind,
-    match msgKind as Body {
-        [182, 83] : Fill,
-        199 : Reject,
-        137 : Logout,
-        35 : Logon,
+    char[] Ref,
+    repeat Order,
+    f32 Acct,
+    @leftPad('0')
+    char[10] venue,
+    @rightPad('0')
+    char[3] seqNo,
+    repeat u64 Px,
+    u8 Flags,
+    u32 lastPx @lengthOf(Body),
+    match Flags as Body {
+        185 : Order,
     },
-    u32 lastPx @calculatedFrom(""CRC32""),
+    u16 sym @calculatedFrom(""CR\
+    C32""),
 }")).
-Eval vm_compute in ("<<<M1539>>>" ++ check (runes_of_ascii "packet i8i8 {
-    // trailing space 
-    // " ++ [27880; 37322]%N ++ runes_of_ascii "
-    MetaDataX @lengthOf(chars) `" ++ [233]%N ++ runes_of_ascii "`,// 50% %s
-    char[] u128 @lengthOf(u8x),
-    @lengthOf(T)
-    float64 repeatCount,
-    @tag(00)
-    MetaDataX,
-    // a // b
-    // trailing space 
-    uint64 chars `tab	here`,
-    string_ @lengthOf(As) ``,
-    zchar[00] asx @lengthOf(metadata) `line1
-        line2`,
-    @lengthOf(charz)
-    charz f32a `" ++ [28040; 24687; 31867; 22411]%N ++ runes_of_ascii "`,
-    @rightPad(	'\x00'
-        )
-    repeat BodyLength tag,
+Eval vm_compute in ("<<<M1340>>>" ++ check (runes_of_ascii "packet Frame {
+    u8 HK,
+    u8 BK,
+    u8 TK,
+    match HK as Hdr {
+        1 : HdrA,
+        2 : HdrB,
+    },
+    match BK as Body {
+        1 : BodyA,
+        2 : BodyB,
+    },
+    match TK as Trl {
+        1 : TrlA,
+    },
+}
+packet HdrA {
+    u8 a,
+}
+packet HdrB {
+    u16 b,
+}
+packet BodyA {
+    u32 c,
+}
+packet BodyB {
+    u64 d,
+}
+packet TrlA {
+    u8 e,
+}
+root packet Msg {
+    Frame,
+    u8 x,
+}
+")).
+Eval vm_compute in ("<<<M1276>>>" ++ check (runes_of_ascii "// top
+packet // c0
+B // c1a
+  // c1b
+{ u8
+    // c3
+a ,
+    // c5
+} // c6
+root packet P // c9
+{ u8 // c11a
+  // c11b
+K // c12a
+  // c12b
+, // c13a
+  // c13b
+match
+    // c14
+K
+    // c15
+as
+    // c16
+Body // c17
+{
+    // c18
+1 // c19
+: B // c21
+,
+    // c22
+} , u16 // c25
+L
+    // c26
+@lengthOf( // c27a
+  // c27b
+Body
+    // c28
+)
+    // c29
+, // c30a
+  // c30b
+} ")).
+Eval vm_compute in ("<<<M1835>>>" ++ check (runes_of_ascii "packet Header {
+    @lengthOf(MetaDataX)
+    char[] Z9_ @calculatedFrom(""CRC32"") `u8 x,`,
 }
 
-packet repeatCount {
-    crc stringy,
+packet a1 {
+    @lengthOf(As)
+    // c
+    // trailing space 
+    repeat rootA Header,
+    @tag(255)
+    //
+    // " ++ [128512]%N ++ runes_of_ascii " emoji
+    zchar[255] A @calculatedFrom(""{,}"") `{ , }`,
+    @lengthOf(Header)
+    uint8 leftPad @calculatedFrom(""" ++ [233]%N ++ runes_of_ascii "t" ++ [233]%N ++ runes_of_ascii """),// " ++ [128512]%N ++ runes_of_ascii " emoji
+}")).
+Eval vm_compute in ("<<<M1709>>>" ++ check (runes_of_ascii "// top
+packet A {
+    // c2
+    u8 a,// c5
+}// c6
+
+packet B {
+    // c9
+    u16 b,
+}
+
+root packet P {
+    u8 K1,// c20
+    u8 K2,
+    // c23
+    match K1 as M1 {
+        // c28a
+        // c28b
+        1 : A,
+    },
+    // c34
+    match K2 as M2 {
+        1 : B,
+        // c43
+    },// c45
+}
+// c46")).
+Eval vm_compute in ("<<<M1454>>>" ++ check (runes_of_ascii "// c
+packet BodyLength {
+    @tag(42)
+    Header tag `u8 x,`,
 }
 
 options {
-    zchar = char[];
-    options1 = false
-    repeatCount = ""a	b""
-    body = ""`tick`""
 }
 
-// a // b
-//x
-MetaData MetaDataX {
-    Pad repeatCount `u8 x,`,
-    char[42] f32a ``,
-    _x Z9_,
-}
+packet string_ {
+    float32 rootA,
+    uint8 MetaDataX `crlf
+        line`,
+    charz,
+    @tag(4294967296)
+    @rightPad('\x00')
+    @tag(7)
+    // c
+    u32 u128 @calculatedFrom(""\" ++ [233]%N ++ runes_of_ascii """),
+}")).
+Eval vm_compute in ("<<<M1823>>>" ++ check (runes_of_ascii "// top
+MetaData msg_type {
+    // c2
+    int32 As `crlf
+    line`,// c6
+    MetaDataX x `a\`,// c10
+    int8 _x,// c13
+    char[] As `u8 x,`,// c17
+    zchar[3] uint8x,// c22
+    As Foo,// c25
+}// c26
 
-packet Logon {
-    @tag(007)
-    o {
-        char Packet @lengthOf(repeatCount),
-    },
-}// a // b")).
-Eval vm_compute in ("<<<M14>>>" ++ check (runes_of_ascii "
-packet Pad { @calculatedFrom( ""x y"") repeat f64 x
-`tab	here`, @rightPad
-    ( ) char[]
-float@calculatedFrom(
-""" ++ [233]%N ++ runes_of_ascii "t" ++ [233]%N ++ runes_of_ascii """ ) ,match uint8x as
-falsey//x
-{ ""CRC32""
-:
-    leftPad } ,@tag(
-    //	t
-    10 )
-    repeat Pad {
-    // " ++ [128512]%N ++ runes_of_ascii " emoji
-    zchar[42 ] uint8x@lengthOf( o)
+root packet repeatCount {
+    // c30
+}// c31")).
+Eval vm_compute in ("<<<M427>>>" ++ check (runes_of_ascii "packet
+    asx { @calculatedFrom(
+""""  ) @tag( 255 ) )repeat
+// packet A { u8 x, }
+// trailing space 
+int16 u8x
 ,
+@tag(
+    //
+    007 )
+    @tag( 0
+    /// triple
+    ) @tag( 1) u
+    @lengthOf( T ),
 // `tick` ""quote"" 'q'
 //x
-i16 x_y_z , stringy
-    @calculatedFrom(
-""`tick`""
-) `a\` ,}, Header// c
-repeatCount ,
-i64_	, @lengthOf( //x
-uint8x
-    ) match options1 as BodyLength
-{ 0
-    :
-    chars //x
-, 255: BodyLength 0123456789
-    :Foo
-    , [ 65535
-    , 42 , 42 ,
-    65535 ,
-255// " ++ [27880; 37322]%N ++ runes_of_ascii "
-, 1
-    // @lengthOf(
-    , ""1"",
-""\n""] : pack
-} , repeat
-    i8i8 msg_type , @lengthOf(f32a	) // @lengthOf(
-T BodyLength
-, }
-")).
-Eval vm_compute in ("<<<M1871>>>" ++ check (runes_of_ascii "  packet
-
-A 	 // c1
-	  {// c2
-
-	u8
-
-    a // c4a
-// c4b
-	,
-
-    // c5
-	} 
-// c6
-packet 
-    // c7
-		B 	 // c8
-	{  
-      // c9
-u16 	 // c10
-b
-	,	// c12
-}
-    // c13
-  root 	 // c14a
-// c14b
-    	packet	P  { 
-
-// c17
-u8 K 
+} // " ++ [128512]%N ++ runes_of_ascii " emoji")).
+Eval vm_compute in ("<<<M403>>>" ++ check (runes_of_ascii "packet
+    asx { """"
+@calculatedFrom(  ) @tag( 255 )repeat
+// packet A { u8 x, }
+// trailing space 
+int16 u8x
 ,
-// c20
-    match	// c21
-    K // c22
-as 
-      // c23
-M // c24a
-	// c24b
-  {
-
-    [
-// c26
-	  1// c27a
-  // c27b
-  , 	 // c28
-	  2 	 // c29a
-// c29b
-  ] 
-// c30
-	: 
-
-// c31
-  A 	 // c32
-    ,	// c33
-    	3 	 // c34
-
-:
-
-    // c35
-B 	 // c36a
-    // c36b
-		,	// c37
-
-7  // c38
-	:// c39a
-  	// c39b
-	A // c40
-
-	,  
-  // c41
-    	}// c42
-  ,// c43
-
-  }")).
-Eval vm_compute in ("<<<M316>>>" ++ check (runes_of_ascii "options
-{ metadata= 10 ;  x= u16// `tick` ""quote"" 'q'
-; matchKey
-    =0
-;	}
-packet MetaDataX	{ i8 u8x `a\`//x
-, u64// 50% %s
-matchKey
-@lengthOf( T ) ,
-    // " ++ [128512]%N ++ runes_of_ascii " emoji
-    char[ 1 // a // b
-]
-Z9_ ,
-    zchar[
-    7	] MetaDataX @lengthOf(calculatedFrom)	,
-    // @lengthOf(
-    @tag( 10 )
-    repeatCount,string MetaDataX
-    // trailing space 
-    @calculatedFrom(/// triple
-""CRC32""
-) `tab	here`
-// " ++ [27880; 37322]%N ++ runes_of_ascii "
-/// triple
-, u8
-A @lengthOf( charz
-) , }
-packet
-    // packet A { u8 x, }
-    Pad{@leftPad (  ) repeat
-    body
-charz , }
-//x
-")).
-Eval vm_compute in ("<<<M1682>>>" ++ check (runes_of_ascii "MetaData o {
-    charz calculatedFrom `
-        `,
-    float64 rootA,
-}
-
-packet A {
-    asx @lengthOf(packetx) `u8 x,`,
-    @lengthOf(packetx)
-    a1 {
-        int32 matchKey @lengthOf(asx) `" ++ [28040; 24687; 31867; 22411]%N ++ runes_of_ascii "`,
-        Header `{ , }`,
-        repeat f64 falsey `100% of %d`,
-    },
-    repeat u32 lengthOf,
-    u64 Z9_,
-    /// triple
-    @lengthOf(_x)
-    packetx {
-        _x,/// triple
-    },
-    zchar[1] a1 @lengthOf(chars),
-    u64 crc `100% of %d`,
-    char[65535] chars,
-}
-
-root packet int {
-}")).
-Eval vm_compute in ("<<<M287>>>" ++ check (runes_of_ascii "packet BodyLength { } packet tag
-{ repeat Logon //
-{ u @calculatedFrom(
-    ""// no comment"" ) `crlf
-line`  ,  char u8x , uint32
-    uint8x ,},} packet T
-{  float32  Z9_ , @lengthOf(
-    pack
-)@calculatedFrom( ""`tick`"" )@lengthOf(u8x )
-u {
-    // `tick` ""quote"" 'q'
-    match
-    repeatCount as u
-//x
-/// triple
-{  ""// no comment"" : packetx , //	t
-1 :falsey
-, } , Z9_ @calculatedFrom(
-    """" ) `doc` , }// @lengthOf(
-,
-    } /// triple")).
-Eval vm_compute in ("<<<M63>>>" ++ check (runes_of_ascii "packet	body { @leftPad// " ++ [27880; 37322]%N ++ runes_of_ascii "
-( '0' ) stringy  roots	,
-@rightPad
-('0' )	asx @lengthOf(
-_x ) ,
-    //	t
-    } packet chars {
 @tag(
-255	) i32 msg_type
-    , o	{
-pack @calculatedFrom(
-""abc"" ), match rootA as tag{ [ 0123456789
-    // @lengthOf(
-    , 7 ] : len , } ,
-    u32 BodyLength	@calculatedFrom(
-""packet"" )`say ""hi""` , lengthOf u ,	}
-,@rightPad ( ' ' ) repeat
-    f32a ,
-    } MetaData
-    msg_type	{}")).
-Eval vm_compute in ("<<<M1707>>>" ++ check (runes_of_ascii "options {
-    T = """ ++ [28040; 24687]%N ++ runes_of_ascii """;
-    string_ = false;
-    f32a = 0123456789;
-    Z9_ = 255
-}
-
-MetaData chars {
-    float32 charz `{ , }`,// @lengthOf(
-    zchar[1] u8x `100% of %d`,
-    uint16 asx `two words`,
-    char[4294967296] Header,
-    i32 Logon,
-    char[0123456789] crc,
-}
-
-packet options1 {
-    falsey `crlf
-        line`,
-    // `tick` ""quote"" 'q'
+    //
+    007 )
+    @tag( 0
     /// triple
-}")).
-Eval vm_compute in ("<<<M1839>>>" ++ check (runes_of_ascii "packet stringy {
-    string lengthOf @calculatedFrom(""" ++ [128512]%N ++ runes_of_ascii """),
-    @lengthOf(MetaDataX)
-    Logon {
-        string Pad `u8 x,`,
-    },// " ++ [128512]%N ++ runes_of_ascii " emoji
-    @tag(00)
-    @calculatedFrom(""" ++ [28040; 24687]%N ++ runes_of_ascii """)
-    repeat uint8 asx,
-    @leftPad( '0'  )
-    @tag(00)
-    zchar[0] trueish `u8 x,`,
-    Header @lengthOf(repeatCount),
+    ) @tag( 1) u
+    @lengthOf( T ),
+// `tick` ""quote"" 'q'
+//x
+} // " ++ [128512]%N ++ runes_of_ascii " emoji")).
+Eval vm_compute in ("<<<M1285>>>" ++ check (runes_of_ascii "// top
+options // c0a
+  // c0b
+{
+    // c1
+FixedStringPadFromLeft // c2a
+  // c2b
+= // c3a
+  // c3b
+true ; // c5
 }
-
-packet u128 {
+    // c6
+root // c7
+packet
+    // c8
+P // c9a
+  // c9b
+{ char[ // c11
+4 // c12
+]
+    // c13
+z , // c15
+} // c16a
+  // c16b
+")).
+Eval vm_compute in ("<<<M164>>>" ++ check (runes_of_ascii "options {falsey = 42 }  options { A
+= 0123456789 ; options1 =	""// no comment""o = ""// no comment"" ; u8x =
+// 50% %s
+// 50% %s
+true ;
+} root packet Z9_ // " ++ [128512]%N ++ runes_of_ascii " emoji
+{	} root packet
+o
+    {
+@tag(65535 )repeat f32 Logon `100% of %d` ,}
+")).
+Eval vm_compute in ("<<<M1261>>>" ++ check (runes_of_ascii "// top
+packet // c0
+Inner {
+    // c2
+u8
+    // c3
+a // c4a
+  // c4b
+,
+    // c5
 }
+    // c6
+root
+    // c7
+packet
+    // c8
+P { // c10a
+  // c10b
+Inner
+    // c11
+ref_obj , u8 // c14a
+  // c14b
+x // c15
+, } // c17
+")).
+Eval vm_compute in ("<<<M229>>>" ++ check (runes_of_ascii "options {
+    }packet u128 // 50% %s
+{@tag(
+// `tick` ""quote"" 'q'
+// " ++ [27880; 37322]%N ++ runes_of_ascii "
+255 ) @tag( // `tick` ""quote"" 'q'
+0
+    )  Packet , } packet u8x { o, }
+packet  As { repeat
+    msg_type Header , }
+")).
+Eval vm_compute in ("<<<M592>>>" ++ check (runes_of_ascii "MetaData u
+    { } MetaData o
+{ float uint8x
+`100% of %d` `100% of %d` ,repeatCount u8x, string_ leftPad
+, i32
+    Foo , int64 x `two words` , calculatedFrom
+stringy `a\` ,
+}
+")).
+Eval vm_compute in ("<<<M677>>>" ++ check (runes_of_ascii "MetaData u
+    { } MetaData o
+{ float uint8x
+`100% of %d` ,repeatCount u8x, string_ leftPad
+, i32
+    Foo , int64 x `two words` , calculatedFrom
+stringy `a\` `a\` ,
+}
+")).
+Eval vm_compute in ("<<<M682>>>" ++ check (runes_of_ascii "MetaData u
+    { } MetaData o
+{ float uint8x
+`100% of %d` ,repeatCount u8x, string_ leftPad
+, i32
+    Foo , int64 x `two words` , calculatedFrom
+stringy `a\` , ,
+}
+")).
+Eval vm_compute in ("<<<M588>>>" ++ check (runes_of_ascii "MetaData u
+    { } MetaData o
+{ float `100% of %d`
+uint8x ,repeatCount u8x, string_ leftPad
+, i32
+    Foo , int64 x `two words` , calculatedFrom
+stringy `a\` ,
+}
+")).
+Eval vm_compute in ("<<<M611>>>" ++ check (runes_of_ascii "MetaData u
+    { } MetaData o
+{ float uint8x
+`100% of %d` ,repeatCount u8x string_ leftPad
+, i32
+    Foo , int64 x `two words` , calculatedFrom
+stringy `a\` ,
+}
+")).
+Eval vm_compute in ("<<<M646>>>" ++ check (runes_of_ascii "MetaData u
+    { } MetaData o
+{ float uint8x
+`100% of %d` ,repeatCount u8x, string_ leftPad
+, i32
+    Foo ,  x `two words` , calculatedFrom
+stringy `a\` ,
+}
+")).
+Eval vm_compute in ("<<<M1833>>>" ++ check (runes_of_ascii "
 
-MetaData charz {
-}")).
-Eval vm_compute in ("<<<M1393>>>" ++ check (runes_of_ascii "options { LittleEndian
-
-    =
-
-true
-
+  options  { 
+LittleEndian
+	=	true 
 ;
-}  packet
+    }
 
-    Sub
+packet 
+B {
+u8
 
-{ u8 
-a
+a,
+string
+s  ,
+	}root
+
+    packet
+    P
+	{
+u16
+L@lengthOf(	B)
+,
+
+    B,u8
+	t 
+,
+	}
+
+")).
+Eval vm_compute in ("<<<M1542>>>" ++ check (runes_of_ascii "  options {	} options
+	{
+    MetaDataX
+	=char
+;
+
+    }
+// c
+  	MetaData
+Pad	{
+i8  metadata,
+string
+stringy ,int8
+
+    As
+`{ , }` , }
+")).
+Eval vm_compute in ("<<<M1840>>>" ++ check (runes_of_ascii "options {
+    LittleEndian = true;
+}
+
+packet B {
+    u8 a,
+    string s,
+}
+
+root packet P {
+    u16 L @lengthOf(B),
+    B,
+    u8 t,
+}")).
+Eval vm_compute in ("<<<M1854>>>" ++ check (runes_of_ascii "options {
+}// c
+
+options {
+    MetaDataX = char;
+}
+
+MetaData Pad {
+    i8 metadata,
+    string stringy,
+    int8 As `{ , }`,
+}")).
+Eval vm_compute in ("<<<M1629>>>" ++ check (runes_of_ascii "MetaData
+rootA
+{
+uint8
+	msg_type ,zchar[ 
+    //
+    42
+    ]
+    As
 
     ,
-@calculatedFrom( ""CRC16""
-)  u64
-    SubSum 
-,
-} root	packet
-	Frame
+
+    T
+	int
+	,
+
+    }// a // b
+")).
+Eval vm_compute in ("<<<M1219>>>" ++ check (runes_of_ascii "options { } options { MetaDataX = char ; // c
+} MetaData Pad { i8 metadata , string stringy , int8 As `{ , }` , }")).
+Eval vm_compute in ("<<<M109>>>" ++ check (runes_of_ascii "
+options
 {
-
-u16	MsgType ,
-u16
-    BodyLen @lengthOf( Body
-	)
-,
-    Sub	Body  ,string note, 
-@calculatedFrom( ""CRC16""  )	u64
-	Checksum ,
-	u8 
-tail, 
-}
-")).
-Eval vm_compute in ("<<<M1279>>>" ++ check (runes_of_ascii "packet B // c1a
-  // c1b
-{
-    // c2
-u8 // c3
-a // c4
-, string // c6a
-  // c6b
-s , } root // c10a
-  // c10b
-packet
-    // c11
-P // c12a
-  // c12b
-{ // c13
-u16 // c14
-L @lengthOf( // c16
-B // c17a
-  // c17b
-)
-    // c18
-, // c19
-B , // c21
-u8 t , } // c25a
-  // c25b
-")).
-Eval vm_compute in ("<<<M542>>>" ++ check (runes_of_ascii "packet
-    asx { @calculatedFrom(
-""""  ) @tag( 255 )repeat
-// packet A { u8 x, }
-// trailing space 
-int16 u8x
-,
-@tag(
-    //
-    007 )
-    @tag( 0
-    /// triple
-    ) @tag( 1) u
-    @lengthOf( T @lengthOf ),
-// `tick` ""quote"" 'q'
-//x
-} // " ++ [128512]%N ++ runes_of_ascii " emoji")).
-Eval vm_compute in ("<<<M546>>>" ++ check (runes_of_ascii "packet
-    caf" ++ [233]%N ++ runes_of_ascii "_1 { @calculatedFrom(
-""""  ) @tag( 255 )repeat
-// packet A { u8 x, }
-// trailing space 
-int16 u8x
-,
-@tag(
-    //
-    007 )
-    @tag( 0
-    /// triple
-    ) @tag( 1) u
-    @lengthOf( T ),
-// `tick` ""quote"" 'q'
-//x
-} // " ++ [128512]%N ++ runes_of_ascii " emoji")).
-Eval vm_compute in ("<<<M540>>>" ++ check (runes_of_ascii "packet
-    asx { @calculatedFrom(
-""""  ) @tag( 255 )repeat
-// packet A { u8 x, }
-// trailing space 
-int16 u8x
-,
-@tag(
-    //
-    007 )
-    @tag( 0
-    /// triple
-    ) @tag( 1) u
-    @lengthOf( T )/,
-// `tick` ""quote"" 'q'
-//x
-} // " ++ [128512]%N ++ runes_of_ascii " emoji")).
-Eval vm_compute in ("<<<M503>>>" ++ check (runes_of_ascii "packet
-    asx { @calculatedFrom(
-""""  ) @tag( 255 )repeat
-// packet A { u8 x, }
-// trailing space 
-int16 u8x
-,
-@tag(
-    //
-    007 )
-    @tag( 0
-    /// triple
-    ) @tag( 1) u
-    T @lengthOf( ),
-// `tick` ""quote"" 'q'
-//x
-} // " ++ [128512]%N ++ runes_of_ascii " emoji")).
-Eval vm_compute in ("<<<M456>>>" ++ check (runes_of_ascii "packet
-    asx { @calculatedFrom(
-""""  ) @tag( 255 )repeat
-// packet A { u8 x, }
-// trailing space 
-int16 u8x
-,
-@tag(
-    //
-     )
-    @tag( 0
-    /// triple
-    ) @tag( 1) u
-    @lengthOf( T ),
-// `tick` ""quote"" 'q'
-//x
-} // " ++ [128512]%N ++ runes_of_ascii " emoji")).
-Eval vm_compute in ("<<<M1771>>>" ++ check (runes_of_ascii "// top
-options {
-    // c1
-}
-
-// c2
-options {
-    // c4
-    MetaDataX = char;
-    // c8
-}
-
-// c9
-MetaData Pad {
-    // c12
-    i8 metadata,
-    // c15
-    string stringy,
-    // c18
-    int8 As `{ , }`,
-    // c22
-}
-// c23")).
-Eval vm_compute in ("<<<M1747>>>" ++ check (runes_of_ascii "packet A {
-    match k as n {
-        ""\
-                "" : B,
-        [""\
-                "", 1] : C,
-        [
-            1, 2, 3, 4, 5,
-            ""\
-                        ""
-        ] : D,
-    },
-}")).
-Eval vm_compute in ("<<<M1717>>>" ++ check (runes_of_ascii "MetaData x_y_z {
-    f32a tag,
-    crc chars `doc`,
-    calculatedFrom Packet `crlf
-        line`,
-    repeatCount int,
-    string matchKey,
-    charz trueish `" ++ [28040; 24687; 31867; 22411]%N ++ runes_of_ascii "`,
-}
-
-packet Pad {
-}")).
-Eval vm_compute in ("<<<M672>>>" ++ check (runes_of_ascii "MetaData u
-    { } MetaData o
-{ float uint8x
-`100% of %d` ,repeatCount u8x, string_ leftPad
-, i32
-    Foo , int64 x `two words` , calculatedFrom
-stringy stringy `a\` ,
-}
-")).
-Eval vm_compute in ("<<<M552>>>" ++ check (runes_of_ascii "MetaData u u
-    { } MetaData o
-{ float uint8x
-`100% of %d` ,repeatCount u8x, string_ leftPad
-, i32
-    Foo , int64 x `two words` , calculatedFrom
-stringy `a\` ,
-}
-")).
-Eval vm_compute in ("<<<M1292>>>" ++ check (runes_of_ascii "// top
-root // c0
-packet // c1
-P { // c3
-u16 a , u32
-    // c7
-Sum // c8a
-  // c8b
-@calculatedFrom( ""CRC32""
-    // c10
-)
-    // c11
-, // c12a
-  // c12b
-}
-    // c13
-")).
-Eval vm_compute in ("<<<M663>>>" ++ check (runes_of_ascii "MetaData u
-    { } MetaData o
-{ float uint8x
-`100% of %d` ,repeatCount u8x, string_ leftPad
-, i32
-    Foo , int64 x `two words` calculatedFrom ,
-stringy `a\` ,
-}
-")).
-Eval vm_compute in ("<<<M636>>>" ++ check (runes_of_ascii "MetaData u
-    { } MetaData o
-{ float uint8x
-`100% of %d` ,repeatCount u8x, string_ leftPad
-, i32
-     , int64 x `two words` , calculatedFrom
-stringy `a\` ,
-}
-")).
-Eval vm_compute in ("<<<M1709>>>" ++ check (runes_of_ascii "packet A {
-    u16 len @lengthOf(body) `a
-            b
-          c`,
-    u32 crc @calculatedFrom(""CRC32"") `a
-            b
-          c`,
+charz  = ""a\\""
+    // trailing space 
+    rootA
+=""packet"" ; x= ""a	b"" ;
+    // " ++ [27880; 37322]%N ++ runes_of_ascii "
+    rootA =
+string}")).
+Eval vm_compute in ("<<<M953>>>" ++ check (runes_of_ascii "packet A {
+    u16 len @lengthOf(body) `
+x`,
+    u32 crc @calculatedFrom(""CRC32"") `
+x`,
     string body,
 }")).
-Eval vm_compute in ("<<<M1825>>>" ++ check (runes_of_ascii "packet A {
-    match k as n {
-        [
-            ""a"", ""bb"", 007, ""d"", ""e"",
-            66, ""g"", ""h"", 9, ""j""
-        ] : B,
-        2 : C,
-    },
-}")).
-Eval vm_compute in ("<<<M1859>>>" ++ check (runes_of_ascii "packet A {
+Eval vm_compute in ("<<<M918>>>" ++ check (runes_of_ascii "packet A {
     Inner {
-        u8 x `
-                `,
+        u8 x `a
+b`,
         Deep {
-            u8 y `
-                        `,
+            u8 y `a
+b`,
         },
     },
 }")).
-Eval vm_compute in ("<<<M1457>>>" ++ check (runes_of_ascii "
-
-  packet
-	A
-{match	k
-
-as
-	n { [ ""a""
-
-,
-""bb""
-
-    ,""c c"",
-    ""d""
-	,
-""e""
-    ,	""f""
-,
-""g"" ]
-
-    :	B
-    2 :
-C } ,
-    }
-")).
-Eval vm_compute in ("<<<M1269>>>" ++ check (runes_of_ascii "packet B {
-    u8 a,
-}
-root packet P {
-    u8 K,
-    u8 L @lengthOf(Body),
-    match K as Body {
-        1 : B,
+Eval vm_compute in ("<<<M972>>>" ++ check (runes_of_ascii "packet A {
+    Inner {
+        u8 x `%`,
+        Deep {
+            u8 y `%`,
+        },
     },
-}
-")).
-Eval vm_compute in ("<<<M1250>>>" ++ check (runes_of_ascii "options { } options { MetaDataX = char ; } MetaData Pad { i8 metadata , string stringy , int8 As `{ , }` , }
-// c
-")).
-Eval vm_compute in ("<<<M1228>>>" ++ check (runes_of_ascii "options { } options { MetaDataX = char ; } MetaData Pad {
-// c
-i8 metadata , string stringy , int8 As `{ , }` , }")).
-Eval vm_compute in ("<<<M923>>>" ++ check (runes_of_ascii "packet A {
-    u16 len @lengthOf(body) `a
-b`,
-    u32 crc @calculatedFrom(""CRC32"") `a
-b`,
-    string body,
 }")).
-Eval vm_compute in ("<<<M1930>>>" ++ check (runes_of_ascii "root packet u {
-    float32 BodyLength,
+Eval vm_compute in ("<<<M93>>>" ++ check (runes_of_ascii "packet
+    Foo
+{float64
+    a1,
+string Z9_ @lengthOf(Logon)`line1
+line2`
+    ,
 }
+// " ++ [128512]%N ++ runes_of_ascii " emoji
+")).
+Eval vm_compute in ("<<<M877>>>" ++ check (runes_of_ascii "packet A {
+  match k as n {
+    [1, 22, 007, 4, 5, 66, 7, 8, 9, 10] : B
+    2 : C
+  },
+}")).
+Eval vm_compute in ("<<<M864>>>" ++ check (runes_of_ascii "packet A {
+  match k as n {
+    [1, 22, 007, 4, 5, 66, 7, 8, 9] : B
+    2 : C
+  },
+}")).
+Eval vm_compute in ("<<<M821>>>" ++ check (runes_of_ascii "packet A {
+  match k as n {
+    [""a"", ""bb"", 007, ""d"", ""e""] : B,
+    2 : C
+  },
+}")).
+Eval vm_compute in ("<<<M1528>>>" ++ check (runes_of_ascii "packet
 
-packet u {
-    char[1] a1 @calculatedFrom(""a\""b""),
-}/// triple")).
-Eval vm_compute in ("<<<M1950>>>" ++ check (runes_of_ascii "  // a // b
-  root
+    A 
+{ 
+B	b
 
-packet
+`x
+`
 
-falsey
-	{} 
+,
+
+B`x
+` 
+,
+repeat  B
+bs
+    `x
+`
+
+    , }")).
+Eval vm_compute in ("<<<M1118>>>" ++ check (runes_of_ascii "packet A {
+    match k as n {
+        1 : B // c
+        , // d
+    },
+}")).
+Eval vm_compute in ("<<<M793>>>" ++ check (runes_of_ascii "packet A {
+  match k as n {
+    [1, 22, ""c c""] : B,
+    2 : C
+  },
+}")).
+Eval vm_compute in ("<<<M916>>>" ++ check (runes_of_ascii "packet A {
+    B b `a
+b`,
+    B `a
+b`,
+    repeat B bs `a
+b`,
+}")).
+Eval vm_compute in ("<<<M1893>>>" ++ check (runes_of_ascii "options
+    { BodyLength
+
+    =  true ;string_
+=	false ;}")).
+Eval vm_compute in ("<<<M784>>>" ++ check (runes_of_ascii "packet A { Inner { match k as n { [1,22] : B, }, }, }")).
+Eval vm_compute in ("<<<M1525>>>" ++ check (runes_of_ascii "
 options
 
-{Pad //
-	  =// " ++ [27880; 37322]%N ++ runes_of_ascii "
-  	f32}
-	root
-packet
-    T
 {
-}
-")).
-Eval vm_compute in ("<<<M903>>>" ++ check (runes_of_ascii "packet A {
-  match k as n {
-    [1, 22, 007, 4, 5, 66, 7, 8, 9, 10, 11, 12] : B
-    2 : C
-  },
-}")).
-Eval vm_compute in ("<<<M890>>>" ++ check (runes_of_ascii "packet A {
-  match k as n {
-    [1, 22, 007, 4, 5, 66, 7, 8, 9, 10, 11] : B
-    2 : C
-  },
-}")).
-Eval vm_compute in ("<<<M934>>>" ++ check (runes_of_ascii "packet A {
-    B b `a
-    b
-  c`,
-    B `a
-    b
-  c`,
-    repeat B bs `a
-    b
-  c`,
-}")).
-Eval vm_compute in ("<<<M1403>>>" ++ check (runes_of_ascii "MetaData charz {
-    pack MetaDataX,
-    falsey crc,
-    u32 u `// not a comment`,
-}")).
-Eval vm_compute in ("<<<M1284>>>" ++ check (runes_of_ascii "options {
-    FixedStringPadFromLeft = true;
-}
-root packet P {
-    char[4] z,
-}
-")).
-Eval vm_compute in ("<<<M1178>>>" ++ check (runes_of_ascii "// top
-options // c0
-{ // c1
-A // c2
-= // c3
-""// no comment"" // c4
-} // c5
-")).
-Eval vm_compute in ("<<<M10>>>" ++ check (runes_of_ascii "
-options {
-string_ =
-char[
-    7 ] ; trueish	= false ; crc=
-char[] ;}")).
-Eval vm_compute in ("<<<M799>>>" ++ check (runes_of_ascii "packet A {
-  match k as n {
-    [1, 22, 007, 4] : B
-    2 : C
-  },
-}")).
-Eval vm_compute in ("<<<M780>>>" ++ check (runes_of_ascii "packet A {
-  match k as n {
-    [1, ""bb""] : B,
-    2 : C
-  },
-}")).
-Eval vm_compute in ("<<<M1647>>>" ++ check (runes_of_ascii "options {
-    // `tick` ""quote"" 'q'
-    x_y_z = zchar[10]
-}")).
-Eval vm_compute in ("<<<M1421>>>" ++ check (runes_of_ascii "MetaData M {
-    u8 x `a
-    b`,
-    T t `a
-    b`,
-}")).
-Eval vm_compute in ("<<<M372>>>" ++ check (runes_of_ascii "MetaData
-float { packetx
-f32a `crlf
-line` ,}
-")).
-Eval vm_compute in ("<<<M1726>>>" ++ check (runes_of_ascii "
-root// a
-  packet  // b
-	A // c
-	{
-	}
-")).
-Eval vm_compute in ("<<<M190>>>" ++ check (runes_of_ascii "MetaData i8i8 {// a // b
-int8 As , }
-")).
-Eval vm_compute in ("<<<M1734>>>" ++ check (runes_of_ascii "root packet A {
-    u8 x `
-    x`,
-}")).
-Eval vm_compute in ("<<<M1520>>>" ++ check (runes_of_ascii "
-// c" ++ [8203]%N ++ runes_of_ascii "
-      packet
-	A
-    {
+A
+= 
+	// c
+  ""// no comment""
 
-}")).
-Eval vm_compute in ("<<<M1095>>>" ++ check (runes_of_ascii "MetaData M {
-}// c
-packet A {}")).
-Eval vm_compute in ("<<<M175>>>" ++ check (runes_of_ascii "MetaData Foo
-    {
-    }
+}
+
 ")).
-Eval vm_compute in ("<<<M1417>>>" ++ check (runes_of_ascii "packet
-A{
-} 	 // c" ++ [8192]%N ++ runes_of_ascii "
-")).
-Eval vm_compute in ("<<<M1767>>>" ++ check (runes_of_ascii "
+Eval vm_compute in ("<<<M1497>>>" ++ check (runes_of_ascii "
 packet
 
-A{
-}  // c" ++ [6158]%N)).
-Eval vm_compute in ("<<<M1055>>>" ++ check (runes_of_ascii "packet A {
-}
-// c" ++ [12]%N)).
-Eval vm_compute in ("<<<M1068>>>" ++ check (runes_of_ascii "packet A {
-}// c" ++ [65279]%N)).
-Eval vm_compute in ("<<<M1766>>>" ++ check (runes_of_ascii "/// triple
+    A
+	{
+    } 
+    // c" ++ [133]%N ++ runes_of_ascii "
  
 ")).
-Eval vm_compute in ("<<<M1049>>>" ++ check (runes_of_ascii "// c" ++ [11]%N)).
+Eval vm_compute in ("<<<M1194>>>" ++ check (runes_of_ascii "options { A = ""// no comment"" }
+// c
+")).
+Eval vm_compute in ("<<<M980>>>" ++ check (runes_of_ascii "root packet A {
+    u8 x `%%d%!`,
+}")).
+Eval vm_compute in ("<<<M1295>>>" ++ check (runes_of_ascii "root packet P {
+    string s,
+}
+")).
+Eval vm_compute in ("<<<M1047>>>" ++ check (runes_of_ascii "packet A {
+ u8 x `d" ++ [8287]%N ++ runes_of_ascii "`, // c" ++ [8287]%N ++ runes_of_ascii "
+}")).
+Eval vm_compute in ("<<<M1535>>>" ++ check (runes_of_ascii "  MetaData
+
+    u{
+    }
+")).
+Eval vm_compute in ("<<<M1146>>>" ++ check (runes_of_ascii "root packet
+// c
+a1 { }")).
+Eval vm_compute in ("<<<M306>>>" ++ check (runes_of_ascii "//
+packet int{ }
+//
+")).
+Eval vm_compute in ("<<<M1051>>>" ++ check (runes_of_ascii "// c" ++ [11]%N ++ runes_of_ascii "
+packet A {
+}")).
+Eval vm_compute in ("<<<M1053>>>" ++ check (runes_of_ascii "packet A {
+}// c" ++ [12]%N)).
+Eval vm_compute in ("<<<M1511>>>" ++ check (runes_of_ascii "packet _x {
+}")).
+Eval vm_compute in ("<<<M1029>>>" ++ check (runes_of_ascii "// c" ++ [8232]%N)).
